@@ -20,6 +20,8 @@ def make_plan(seed: int, tier: str, opts: dict) -> dict:
         if wall:
             ep["nsteps"] = r.randint(3, 6)
         eps.append(ep)
+    for ep in eps:
+        ep["until_active"] = True
     return dict(spec=spec, seed=seed, episodes=eps, clock="wall" if wall else "sim",
                 line_rate=r.choice([0.0, 0.0025, 0.01]) if tier == "thorough" else 0.0)
 
